@@ -64,7 +64,8 @@ pub fn workload(r: &mut Rng, k: u64, mix: u32, ngoals: usize) -> Work {
             for _ in 0..ngoals {
                 let t = gen_ground_ty(r, &prog, 2);
                 let tr = r.pick(&prog.traits).name.clone();
-                goals.push((pred_text(&MPred::new(&tr, vec![t])), vec![], None));
+                let pr = MPred::new(&tr, vec![t]);
+                goals.push((pred_text(&pr), vec![], Some(MGoal::Pred(pr))));
             }
             let text = program_text(&prog);
             Work { prog, text, goals, fragment: "auto" }
